@@ -171,6 +171,12 @@ type c03Leader struct {
 	log  replication.DurableQuorumLog
 	gen  int
 	auth []replication.AuthorityID // per channel, the authority this generation expects
+	// ctx is the parent of every Commit context issued against rt; it is
+	// cancelled only after rt.Close has returned, so that a Commit whose
+	// completion was never delivered by the closed runtime still returns.
+	ctx      context.Context
+	cancel   context.CancelFunc
+	inflight *atomic.Int64
 }
 
 type c03Cluster struct {
@@ -242,7 +248,8 @@ func (c *c03Cluster) startLeader(gen int, auth []replication.AuthorityID) (*c03L
 		return nil, err
 	}
 	c.router.register(c03LeaderNode, rt.ExchangeServer())
-	l := &c03Leader{rt: rt, log: rt.Log(), gen: gen, auth: append([]replication.AuthorityID(nil), auth...)}
+	ctx, cancel := context.WithCancel(context.Background())
+	l := &c03Leader{rt: rt, log: rt.Log(), gen: gen, auth: append([]replication.AuthorityID(nil), auth...), ctx: ctx, cancel: cancel, inflight: &atomic.Int64{}}
 	c.leader.Store(l)
 	return l, nil
 }
@@ -255,6 +262,7 @@ func (c *c03Cluster) closeAll() []error {
 		if err := l.rt.Close(ctx); err != nil {
 			errs = append(errs, err)
 		}
+		l.cancel()
 	}
 	for _, rt := range c.followers {
 		if err := rt.Close(ctx); err != nil {
